@@ -163,8 +163,13 @@ static sqfs_object_t *data_reader_copy(const sqfs_object_t *obj)
 	if (copy->frag_tbl == NULL)
 		goto fail_ftbl;
 
+	/*
+	 * The block buffers are always block_size bytes large (see
+	 * get_block), only the first data_blk_size / frag_blk_size bytes
+	 * come from the image. The read functions rely on the full size.
+	 */
 	if (data->data_block != NULL) {
-		copy->data_block = malloc(data->data_blk_size);
+		copy->data_block = alloc_array(1, data->block_size);
 		if (copy->data_block == NULL)
 			goto fail_dblk;
 
@@ -173,7 +178,7 @@ static sqfs_object_t *data_reader_copy(const sqfs_object_t *obj)
 	}
 
 	if (copy->frag_block != NULL) {
-		copy->frag_block = malloc(copy->frag_blk_size);
+		copy->frag_block = alloc_array(1, data->block_size);
 		if (copy->frag_block == NULL)
 			goto fail_fblk;
 
